@@ -20,8 +20,12 @@ Definition spec_allowed : list string :=
    "http://www.w3.org/2001/04/xmldsig-more#rsa-sha384";
    "http://www.w3.org/2001/04/xmldsig-more#rsa-sha512"].
 
-(* supported = the implementation has a signer for the URI (live table SIGNER_ALGS) *)
-Definition supported (a : string) : Prop := In a (map fst signer_algs).
+(* supported = one of the five algorithms the property supports.  (Until strengthening round 6 this read "the
+   implementation has a signer for the URI", i.e. the live table SIGNER_ALGS: the clause "an unsupported SigAlg is
+   never treated as verified" then said nothing about a URI that the implementation comes to support, such as
+   rsa-md5 with a genuine RSA-MD5 signature.  What the live table contains is the MODEL's business:
+   Proofs.signer_algs_allowed re-checks on every run that it names no URI outside this list.) *)
+Definition supported (a : string) : Prop := In a spec_allowed.
 
 Definition dict_eq (a b : query) : Prop := forall k, get a k = get b k.
 Definition same_on (keys : list string) (a b : query) : Prop := forall k, In k keys -> get a k = get b k.
@@ -131,7 +135,7 @@ Section Spec.
            | _, _ => true
            end))
     && match get (q x) K_ALG with
-       | Some a => mem a (map fst signer_algs) || negb (vres_eqb (snd o) VTrue)
+       | Some a => mem a spec_allowed || negb (vres_eqb (snd o) VTrue)
        | None => true
        end
     && match vc x with CUnreadable => negb (vres_eqb (snd o) VTrue) | _ => true end.
